@@ -5,4 +5,5 @@ cd "$(dirname "$(readlink -f "$0")")"
 export CARGO_NET_OFFLINE=true
 (cd sim && cargo build --release --target-dir target-s)
 (cd sim && cargo +nightly build --release --features nightly --target-dir target-n)
+(cd sim && cargo +nightly build --release --features nightly,simd --target-dir target-nsimd)
 echo setup ok
